@@ -220,3 +220,101 @@ def every_node_is_an_op(chk: Check, R: str) -> None:
         ok = r[0] == 'cls' and r[1] in classes
         chk.require(ok, R, '%s.%s default factory' % (cls, fld), '%s:%d' % (F.cls(cls).module.rel, line),
                     'default node `%s` %s' % (norm(node), 'is an Op' if ok else 'is not an Op'))
+
+
+# ------------------------------------------------------------ grammar roles
+def call_role(chk: Check) -> Tuple[str, str, str]:
+    """(call node class, its name field, its args field), found through `NAME ( arglist )`."""
+    F = chk.facts
+    c = getattr(F, '_call_role', None)
+    if c:
+        return c
+    g = C.grammar(F)
+    T = C.templates(F)
+    lm = C.lexmodel(F)
+    for t in T.all():
+        rhs = t.prod.rhs
+        if len(rhs) == 4 and rhs[0] == 'NAME' and lm.token_texts.get(rhs[1]) == {'('} and lm.token_texts.get(rhs[3]) == {')'} \
+                and t.raises is None and isinstance(t.result, tuple) and t.result[0] == 'new':
+            cls, flds = t.result[1], t.result[2]
+            nf = [n for n, v in flds if isinstance(v, tuple) and v[:2] == ('tok', '1')]
+            af = [n for n, v in flds if isinstance(v, tuple) and v[:2] == ('symlist', '3')]
+            if nf and af:
+                F._call_role = (cls, nf[0], af[0])  # type: ignore
+                return F._call_role
+    raise AnalysisError('anchor vanished: no production `NAME ( arglist )` building a call node')
+
+
+def lowered_calls(chk: Check) -> List[Tuple[Any, str, Tuple]]:
+    """(template, constant function name, args tuple) for every call node a template builds with a constant name."""
+    F = chk.facts
+    T = C.templates(F)
+    cls, nf, af = call_role(chk)
+    out = []
+    for t in T.all():
+        if t.raises is not None:
+            continue
+        for c, flds in A.new_nodes(t.result):
+            if c == cls:
+                fd = dict(flds)
+                n = fd.get(nf)
+                a = fd.get(af)
+                if isinstance(n, tuple) and n[0] == 'const' and isinstance(n[1], str):
+                    out.append((t, n[1], a))
+    return out
+
+
+def assignment_forms(chk: Check) -> List[Dict[str, Any]]:
+    """The assignment statements of the grammar and where each one lands."""
+    F = chk.facts
+    g = C.grammar(F)
+    T = C.templates(F)
+    lm = C.lexmodel(F)
+    from ..functab import table
+    tab = table(F)
+    ccls, nf, af = call_role(chk)
+    forms = []
+    for t in T.all():
+        rhs = t.prod.rhs
+        idx = None
+        compound = False
+        for i, s in enumerate(rhs, 1):
+            texts = lm.token_texts.get(s)
+            if s in g.nonterminals or texts is None:
+                continue
+            if texts == {'='}:
+                idx, compound = i, False
+            elif texts and all(len(x) == 2 and x.endswith('=') and x[0] in '+-*/%&|^' for x in texts):
+                idx, compound = i, True
+        if idx is None or t.raises is not None or idx == len(rhs):
+            continue
+        if not (isinstance(t.result, tuple) and t.result and t.result[0] == 'new'):
+            continue
+        cls, flds = t.result[1], dict(t.result[2])
+        rpos = str(len(rhs))
+        form: Dict[str, Any] = {'template': t, 'compound': compound, 'key': t.key,
+                                'kind': 'name' if idx == 2 and rhs[0] == 'NAME' else 'index'}
+        if cls == ccls and isinstance(flds.get(nf), tuple) and flds[nf][0] == 'const':
+            name = flds[nf][1]
+            args = flds.get(af)
+            if not (isinstance(args, tuple) and args and args[0] == 'list'):
+                raise AnalysisError('assignment template %s: args are not a list display' % t.key)
+            if name not in tab or tab[name].kind != 'fn':
+                raise AnalysisError('assignment template %s lowers to %r which is not a package function in FUNCTIONS' % (t.key, name))
+            def argidx(pos):
+                for i, a in enumerate(args[1:]):
+                    if any(p == pos for p, _ in A.symbols_in(a)):
+                        return i
+                return None
+            form.update(target='fn', fn=tab[name].target, fname=name, value_idx=argidx(rpos), container_idx=argidx('1'),
+                        key_idx=argidx('3'), op_idx=argidx(str(idx)) if compound else None)
+        else:
+            vf = [n for n, v in flds.items() if isinstance(v, tuple) and v[:2] == ('sym', rpos)]
+            namef = [n for n, v in flds.items() if isinstance(v, tuple) and v[:2] == ('tok', '1')]
+            opf = [n for n, v in flds.items() if isinstance(v, tuple) and v[:2] == ('tok', str(idx))]
+            if not vf:
+                raise AnalysisError('assignment template %s: right-hand side not stored in a field' % t.key)
+            form.update(target='op', cls=cls, value_field=vf[0], name_field=namef[0] if namef else None,
+                        op_field=opf[0] if opf else None)
+        forms.append(form)
+    return forms
